@@ -21,12 +21,12 @@ def configs(tier):
     if tier == "thorough":
         return [
             C("csr", "elem", (0, 3), z, (0, 3), pal=1), C("csr", "elem", (0, 3), z, (0, 3), pal=2),
-            C("csr", "elem", (4, 4), z, (3, 4), pal=2, maxrow=2), C("csr", "elem", (0, 3), z, (0, 3), pal=2, arrayless=True),
+            C("csr", "elem", (4, 4), z, (3, 3), pal=2, maxrow=2), C("csr", "elem", (0, 3), z, (0, 3), pal=2, arrayless=True),
             C("csr", "mm", (0, 1), (0, 1), (0, 1), pal=1), C("csr", "mm", (1, 2), (1, 2), (1, 2), pal=1, arrayless=True),
-            C("csr", "mm", (1, 1), (3, 3), (3, 3), pal=1, nalpha=3), C("csr", "mm", (1, 1), (3, 3), (3, 3), pal=2),
+            C("csr", "mm", (1, 1), (3, 3), (3, 3), pal=1), C("csr", "mm", (1, 1), (2, 2), (3, 3), pal=2, nalpha=3),
             C("csr", "mm", (2, 2), (2, 2), (2, 2), pal=1, nalpha=3), C("csr", "mm", (2, 2), (2, 2), (3, 3), pal=2, maxrow=2),
             C("csr", "mm", (3, 3), (2, 2), (2, 2), pal=1, maxrow=1), C("csr", "mm", (1, 1), (2, 2), (4, 4), pal=1),
-            C("csr", "dvm", (1, 2), (2, 2), (2, 2), pal=1, nalpha=3), C("csr", "dvm", (1, 1), (3, 3), (3, 3), pal=2),
+            C("csr", "dvm", (1, 2), (2, 2), (2, 2), pal=1, nalpha=3), C("csr", "dvm", (1, 1), (3, 3), (2, 2), pal=2),
             C("csr", "dvm", (1, 2), (1, 2), (1, 2), pal=1, arrayless=True),
             C("csr", "dmm", (1, 1), (2, 2), (2, 2), pal=1, nalpha=3), C("csr", "dmm", (2, 2), (2, 2), (2, 2), pal=2, maxrow=1),
             C("csr", "dmm", (1, 1), (1, 2), (3, 3), pal=2, maxrow=2), C("csr", "dmm", (1, 1), (1, 2), (1, 2), pal=1, arrayless=True),
